@@ -190,7 +190,8 @@ def gen_rule(rng, g, var_ids, depth, kinds, counter):
     node = {'tag': counter[0], 'cond': closed_cond(rng, g, var_ids), 'kids': []}
     counter[0] += 1
     if depth > 0:
-        for _ in range(rng.choice((0, 1, 1, 2))):
+        # up to three blocks per node: a refinement followed by two alternatives (or any other order) must occur
+        for _ in range(rng.choice((0, 1, 1, 2, 2, 3) if depth <= 2 else (0, 1, 1, 2))):
             node['kids'].append((rng.choice(kinds), gen_rule(rng, g, var_ids, depth - 1, kinds, counter)))
     return node
 
@@ -265,7 +266,7 @@ def c12(report, rng, tier, findings):
         rule = gen_rule(rng, g, ids, depth, rng.choice((('ref',), ('alt',), ('ref', 'alt'), ('ref', 'alt'))), [0])
         cases.append({'id': f'r{i}', 'classes': base['classes'], 'objs': base['objs'], 'vars': base['vars'],
                       'args': [('var', v) for v in ids], 'rule': rule})
-    report.rule = ("random rule trees to depth 3 built with Add conclusions, refinement and alternative (0-2 blocks per node; "
+    report.rule = ("random rule trees to depth 3 built with Add conclusions, refinement and alternative (0-3 blocks per node in any order; "
                    "refinements under the base, under refinements and under alternatives; alternatives under refinements; "
                    "chains of alternatives), branch-closed conjunctive conditions over 1-2 variables, overlapping and exclusive "
                    "sibling conditions; the multiset of (conclusion, fields) is compared with a recursive ripple-down-rules "
